@@ -103,4 +103,372 @@ theorem frameNative_st (s : St) (fi : FrameIn) (o : FrameOr) : FrameSt s (frameN
           · exact hF
 
 
+/-- `stOk` as a proposition. -/
+structure StOk (s : St) : Prop where
+  fs : s.fs = 8000 ∨ s.fs = 12000 ∨ s.fs = 16000 ∨ s.fs = 24000 ∨ s.fs = 48000
+  ch : s.channels = 1 ∨ s.channels = 2
+  bitrate : s.userBitrate = OPUS_AUTO ∨ s.userBitrate = OPUS_BITRATE_MAX ∨
+             (500 ≤ s.userBitrate ∧ s.userBitrate ≤ 750000 * s.channels)
+  forced : s.userForcedMode = OPUS_AUTO ∨ (MODE_SILK_ONLY ≤ s.userForcedMode ∧ s.userForcedMode ≤ MODE_CELT_ONLY)
+  userBw : s.userBandwidth = OPUS_AUTO ∨ (BW_NB ≤ s.userBandwidth ∧ s.userBandwidth ≤ BW_FB)
+  maxBw : BW_NB ≤ s.maxBandwidth ∧ s.maxBandwidth ≤ BW_FB
+  force : s.forceChannels = OPUS_AUTO ∨ (1 ≤ s.forceChannels ∧ s.forceChannels ≤ s.channels)
+  sc : 1 ≤ s.streamChannels ∧ s.streamChannels ≤ s.channels
+  bw : BW_NB ≤ s.bandwidth ∧ s.bandwidth ≤ BW_FB
+  prevMode : s.prevMode = 0 ∨ (MODE_SILK_ONLY ≤ s.prevMode ∧ s.prevMode ≤ MODE_CELT_ONLY)
+  cx : 0 ≤ s.complexity ∧ s.complexity ≤ 10
+  loss : 0 ≤ s.lossPerc ∧ s.lossPerc ≤ 100
+  mode : MODE_SILK_ONLY ≤ s.mode ∧ s.mode ≤ MODE_CELT_ONLY
+  prevCh : 0 ≤ s.prevChannels ∧ s.prevChannels ≤ s.channels
+  toMono : s.toMono = 0 ∨ s.toMono = 1
+  firstPrev : s.first ≠ 0 → s.prevMode = 0
+  lowdelay : s.application = APP_RESTRICTED_LOWDELAY → s.prevMode = 0 ∨ s.prevMode = MODE_CELT_ONLY
+
+theorem stOk_iff (s : St) : stOk s = true ↔ StOk s := by
+  unfold stOk
+  simp only [decide_eq_true_eq]
+  constructor
+  · rintro ⟨a1, a2, a3, a4, a5, a6, a7, a8, a9, a10, a11, a12, a13, a14, a15, a16, a17⟩
+    exact ⟨a1, a2, a3, a4, a5, a6, a7, a8, a9, a10, a11, a12, a13, a14, a15, a16, a17⟩
+  · rintro ⟨a1, a2, a3, a4, a5, a6, a7, a8, a9, a10, a11, a12, a13, a14, a15, a16, a17⟩
+    exact ⟨a1, a2, a3, a4, a5, a6, a7, a8, a9, a10, a11, a12, a13, a14, a15, a16, a17⟩
+
+/-- The settings (never written by an encode call). -/
+def Conf (a b : St) : Prop :=
+  b.fs = a.fs ∧ b.channels = a.channels ∧ b.application = a.application ∧ b.useVbr = a.useVbr ∧
+  b.userBitrate = a.userBitrate ∧ b.forceChannels = a.forceChannels ∧ b.signalType = a.signalType ∧
+  b.userBandwidth = a.userBandwidth ∧ b.maxBandwidth = a.maxBandwidth ∧ b.userForcedMode = a.userForcedMode ∧
+  b.lfe = a.lfe ∧ b.useDtx = a.useDtx ∧ b.fecConfig = a.fecConfig ∧ b.variableDuration = a.variableDuration ∧
+  b.complexity = a.complexity ∧ b.lossPerc = a.lossPerc ∧ b.useInBandFEC = a.useInBandFEC ∧
+  b.energyMasking = a.energyMasking
+
+theorem Conf.refl (a : St) : Conf a a := by unfold Conf; simp
+theorem Conf.trans {a b c : St} (h1 : Conf a b) (h2 : Conf b c) : Conf a c := by
+  unfold Conf at *
+  obtain ⟨a1, a2, a3, a4, a5, a6, a7, a8, a9, a10, a11, a12, a13, a14, a15, a16, a17, a18⟩ := h1
+  obtain ⟨b1, b2, b3, b4, b5, b6, b7, b8, b9, b10, b11, b12, b13, b14, b15, b16, b17, b18⟩ := h2
+  exact ⟨b1.trans a1, b2.trans a2, b3.trans a3, b4.trans a4, b5.trans a5, b6.trans a6, b7.trans a7, b8.trans a8,
+    b9.trans a9, b10.trans a10, b11.trans a11, b12.trans a12, b13.trans a13, b14.trans a14, b15.trans a15,
+    b16.trans a16, b17.trans a17, b18.trans a18⟩
+
+theorem Keeps.conf {a b : St} (h : Keeps a b) : Conf a b := by
+  unfold Keeps at h; unfold Conf
+  refine ⟨?_, ?_, ?_, ?_, ?_, ?_, ?_, ?_, ?_, ?_, ?_, ?_, ?_, ?_, ?_, ?_, ?_, ?_⟩ <;> (rw [h])
+theorem Same.conf {a b : St} (h : Same a b) : Conf a b := by
+  unfold Same at h; unfold Conf
+  refine ⟨?_, ?_, ?_, ?_, ?_, ?_, ?_, ?_, ?_, ?_, ?_, ?_, ?_, ?_, ?_, ?_, ?_, ?_⟩ <;> (rw [h])
+theorem BudSame.conf {a b : St} (h : BudSame a b) : Conf a b := by
+  unfold BudSame at h; unfold Conf
+  refine ⟨?_, ?_, ?_, ?_, ?_, ?_, ?_, ?_, ?_, ?_, ?_, ?_, ?_, ?_, ?_, ?_, ?_, ?_⟩ <;> (rw [h])
+
+
+theorem chanDecide_range (s : St) (fuzz : Bool) (ve er : Int) (rands : List Int) (h : StOk s) :
+    1 ≤ (chanDecide s fuzz ve er rands).1 ∧ (chanDecide s fuzz ve er rands).1 ≤ s.channels := by
+  obtain ⟨hsc1, hsc2⟩ := h.sc
+  have hch := h.ch
+  have hf := h.force
+  unfold chanDecide
+  simp only [OPUS_AUTO] at *
+  split
+  · omega
+  · split
+    · split
+      · dsimp only; split <;> omega
+      · dsimp only; omega
+    · split
+      · dsimp only; split <;> omega
+      · dsimp only; omega
+
+theorem tail_fields (s : St) (ve er maxRate : Int) :
+    ((autoBandwidthUpd s ve er).streamChannels = s.streamChannels ∧ (autoBandwidthUpd s ve er).toMono = s.toMono) ∧
+    ((bwClamp s maxRate).streamChannels = s.streamChannels ∧ (bwClamp s maxRate).toMono = s.toMono) ∧
+    ((detectedClamp s er).streamChannels = s.streamChannels ∧ (detectedClamp s er).toMono = s.toMono) ∧
+    ((decFec s er).streamChannels = s.streamChannels ∧ (decFec s er).toMono = s.toMono) := by
+  refine ⟨?_, ⟨rfl, rfl⟩, ?_, ⟨rfl, rfl⟩⟩
+  · unfold autoBandwidthUpd
+    dsimp only
+    (repeat' split) <;> exact ⟨rfl, rfl⟩
+  · unfold detectedClamp; split <;> exact ⟨rfl, rfl⟩
+
+theorem modeDecide_lowdelay (s : St) (fuzz : Bool) (o : NatOr) (ve er fsz m : Int) (rands : List Int)
+    (h : s.application = APP_RESTRICTED_LOWDELAY) : (modeDecide s fuzz o ve er fsz m rands).1 = MODE_CELT_ONLY := by
+  have hreq : (modeReq s fuzz o ve er fsz m rands).1 = MODE_CELT_ONLY := by unfold modeReq; rw [if_pos h]
+  unfold modeDecide
+  dsimp only
+  rw [hreq]
+  split
+  · rfl
+  · rw [if_neg (by simp)]
+
+/-- What the decision chain leaves, beyond `decide'_spec`: channel count within the encoder's channels,
+    `toMono` a flag, `prev_*`/`first` untouched, CELT-only for the low-delay application. -/
+theorem decide'_run (s : St) (fuzz : Bool) (o : NatOr) (fsz m : Int) (h : StOk s) :
+    (1 ≤ (decide' s fuzz o fsz m).st.streamChannels ∧ (decide' s fuzz o fsz m).st.streamChannels ≤ s.channels) ∧
+    ((decide' s fuzz o fsz m).st.toMono = 0 ∨ (decide' s fuzz o fsz m).st.toMono = 1) ∧
+    (decide' s fuzz o fsz m).st.prevMode = s.prevMode ∧ (decide' s fuzz o fsz m).st.prevChannels = s.prevChannels ∧
+    (decide' s fuzz o fsz m).st.first = s.first ∧
+    (s.application = APP_RESTRICTED_LOWDELAY → (decide' s fuzz o fsz m).st.mode = MODE_CELT_ONLY) := by
+  let a := decChan s fuzz o fsz
+  let md := modeDecide a.1 fuzz o (voiceEst s)
+              (computeEquivRate s.bitrateBps a.1.streamChannels (s.fs / fsz) s.useVbr 0 s.complexity s.lossPerc)
+              fsz m a.2
+  let t := transDecide md.1 s.prevMode fsz s.fs
+  let b := decMode a.1 t
+  let er := equivRate2 b fsz
+  let c1 := autoBandwidthUpd b (voiceEst s) er
+  let c2 := bwClamp c1 ((s.fs / fsz) * m * 8)
+  let c3 := detectedClamp c2 er
+  have hst : (decide' s fuzz o fsz m).st = decFec c3 er := rfl
+  obtain ⟨t1, _, _, _⟩ := tail_fields b (voiceEst s) er 0
+  obtain ⟨_, t2, _, _⟩ := tail_fields c1 (voiceEst s) er ((s.fs / fsz) * m * 8)
+  obtain ⟨_, _, t3, _⟩ := tail_fields c2 (voiceEst s) er 0
+  obtain ⟨_, _, _, t4⟩ := tail_fields c3 (voiceEst s) er 0
+  have hsc : (decFec c3 er).streamChannels = b.streamChannels := by rw [t4.1, t3.1, t2.1, t1.1]
+  have htm : (decFec c3 er).toMono = b.toMono := by rw [t4.2, t3.2, t2.2, t1.2]
+  have ha := chanDecide_range s fuzz (voiceEst s)
+    (computeEquivRate s.bitrateBps s.channels (s.fs / fsz) s.useVbr 0 s.complexity s.lossPerc) o.rands h
+  have hasc : a.1.streamChannels = (chanDecide s fuzz (voiceEst s)
+    (computeEquivRate s.bitrateBps s.channels (s.fs / fsz) s.useVbr 0 s.complexity s.lossPerc) o.rands).1 := rfl
+  have hapc : a.1.prevChannels = s.prevChannels := rfl
+  have hsame := (decide'_spec s fuzz o fsz m ⟨h.forced, h.userBw, h.maxBw, h.prevMode⟩ h.bw).1
+  have hpc := h.prevCh
+  rw [hst]
+  refine ⟨?_, ?_, ?_, ?_, ?_, ?_⟩
+  · rw [hsc]
+    show 1 ≤ (decMode a.1 t).streamChannels ∧ (decMode a.1 t).streamChannels ≤ s.channels
+    unfold decMode
+    split
+    · rename_i hc; dsimp only; rw [hapc] at hc; omega
+    · dsimp only; rw [hasc]; exact ha
+  · rw [htm]
+    show (decMode a.1 t).toMono = 0 ∨ (decMode a.1 t).toMono = 1
+    unfold decMode; split
+    · exact Or.inr rfl
+    · exact Or.inl rfl
+  · rw [← hst]; unfold Same at hsame; rw [hsame]
+  · rw [← hst]; unfold Same at hsame; rw [hsame]
+  · rw [← hst]; unfold Same at hsame; rw [hsame]
+  · intro hld
+    apply decFec_celt
+    have hmd : md.1 = MODE_CELT_ONLY := modeDecide_lowdelay a.1 fuzz o _ _ fsz m a.2 hld
+    have htm' : t.mode = MODE_CELT_ONLY := by
+      show (transDecide md.1 s.prevMode fsz s.fs).mode = MODE_CELT_ONLY
+      have hp := h.lowdelay hld
+      unfold transDecide
+      rw [hmd]
+      simp only [MODE_CELT_ONLY] at *
+      split
+      · omega
+      · rfl
+    obtain ⟨_, h1m, _⟩ := autoBw_spec b (voiceEst s) er (by
+      show BwOk (decMode a.1 t).bandwidth
+      rw [decMode_bw]; exact h.bw)
+    show (detectedClamp (bwClamp (autoBandwidthUpd b (voiceEst s) er) ((s.fs / fsz) * m * 8)) er).mode = MODE_CELT_ONLY
+    have e1 : (detectedClamp c2 er).mode = c2.mode := by unfold detectedClamp; split <;> rfl
+    rw [e1]
+    show c1.mode = MODE_CELT_ONLY
+    rw [h1m, decMode_mode]; exact htm'
+
+
+theorem Keeps.toMono {a b : St} (h : Keeps a b) : b.toMono = a.toMono := by
+  unfold Keeps at h; have h' := congrArg St.toMono h; exact h'
+
+/-- A state reached from the decided state `d` by (sub-)frame calls. -/
+structure RunOk (d a : St) : Prop where
+  conf : Conf d a
+  mode : a.mode = d.mode
+  bw : a.bandwidth = d.bandwidth
+  sc : a.streamChannels = d.streamChannels
+  toMono : a.toMono = 0 ∨ a.toMono = d.toMono
+  prev : (a.prevMode = d.prevMode ∧ a.first = d.first) ∨
+         (a.first = 0 ∧ (a.prevMode = d.mode ∨ a.prevMode = MODE_CELT_ONLY))
+  prevCh : a.prevChannels = d.prevChannels ∨ a.prevChannels = d.streamChannels
+
+theorem RunOk.refl (d : St) : RunOk d d :=
+  ⟨Conf.refl d, rfl, rfl, rfl, Or.inr rfl, Or.inl ⟨rfl, rfl⟩, Or.inl rfl⟩
+
+/-- One frame call on `a` itself or on `subSt c i a`. -/
+theorem RunOk.frame {d a a' r : St} (h : RunOk d a)
+    (ha : Conf a a' ∧ a'.mode = a.mode ∧ a'.bandwidth = a.bandwidth ∧ a'.streamChannels = a.streamChannels ∧
+          (a'.toMono = 0 ∨ a'.toMono = a.toMono) ∧ a'.prevMode = a.prevMode ∧ a'.first = a.first ∧
+          a'.prevChannels = a.prevChannels)
+    (hf : FrameSt a' r) : RunOk d r := by
+  obtain ⟨c1, m1, b1, s1, t1, p1, f1, pc1⟩ := ha
+  obtain ⟨hk, hp⟩ := hf
+  refine ⟨(h.conf.trans c1).trans hk.conf, by rw [hk.mode, m1, h.mode], by rw [hk.bandwidth, b1, h.bw],
+    by rw [hk.streamChannels, s1, h.sc], ?_, ?_, ?_⟩
+  · rw [hk.toMono]
+    rcases t1 with t | t
+    · exact Or.inl t
+    · rw [t]; exact h.toMono
+  · rcases hp with ⟨q1, q2, _⟩ | ⟨q1, q2, _⟩
+    · rcases h.prev with ⟨r1, r2⟩ | ⟨r1, r2⟩
+      · exact Or.inl ⟨by rw [q1, p1, r1], by rw [q2, f1, r2]⟩
+      · exact Or.inr ⟨by rw [q2, f1, r1], by rw [q1, p1]; exact r2⟩
+    · refine Or.inr ⟨q1, ?_⟩
+      rcases q2 with q | q
+      · exact Or.inl (by rw [q, m1, h.mode])
+      · exact Or.inr q
+  · rcases hp with ⟨_, _, q3⟩ | ⟨_, _, q3⟩
+    · rcases q3 with q | q
+      · rw [q, pc1]; exact h.prevCh
+      · exact Or.inr (by rw [q, s1, h.sc])
+    · exact Or.inr (by rw [q3, s1, h.sc])
+
+theorem subSt_rel (c : MultiCtx) (i : Nat) (a : St) :
+    Conf a (subSt c i a) ∧ (subSt c i a).mode = a.mode ∧ (subSt c i a).bandwidth = a.bandwidth ∧
+    (subSt c i a).streamChannels = a.streamChannels ∧ ((subSt c i a).toMono = 0 ∨ (subSt c i a).toMono = a.toMono) ∧
+    (subSt c i a).prevMode = a.prevMode ∧ (subSt c i a).first = a.first ∧
+    (subSt c i a).prevChannels = a.prevChannels :=
+  ⟨by unfold Conf; exact ⟨rfl, rfl, rfl, rfl, rfl, rfl, rfl, rfl, rfl, rfl, rfl, rfl, rfl, rfl, rfl, rfl, rfl, rfl⟩,
+   rfl, rfl, rfl, Or.inl rfl, rfl, rfl, rfl⟩
+
+theorem self_rel (a : St) :
+    Conf a a ∧ a.mode = a.mode ∧ a.bandwidth = a.bandwidth ∧ a.streamChannels = a.streamChannels ∧
+    (a.toMono = 0 ∨ a.toMono = a.toMono) ∧ a.prevMode = a.prevMode ∧ a.first = a.first ∧
+    a.prevChannels = a.prevChannels :=
+  ⟨Conf.refl a, rfl, rfl, rfl, Or.inr rfl, rfl, rfl, rfl⟩
+
+theorem multiSt0_run (d : St) : RunOk d (multiSt0 d) := by
+  unfold multiSt0
+  split
+  · exact RunOk.refl d
+  · exact ⟨by unfold Conf; exact ⟨rfl, rfl, rfl, rfl, rfl, rfl, rfl, rfl, rfl, rfl, rfl, rfl, rfl, rfl, rfl, rfl, rfl, rfl⟩,
+      rfl, rfl, rfl, Or.inr rfl, Or.inl ⟨rfl, rfl⟩, Or.inr rfl⟩
+
+/-- Loop invariant of the multi-frame path, for all oracle values. -/
+def MI (d : St) (a : MultiAcc) : Prop := RunOk d a.st ∧ ∀ r, a.fail = some r → RunOk d r.st
+
+theorem multiStep_mi (d0 : St) (c : MultiCtx) (d : Decided) (isSil : Int) (i : Nat) (fo : FrameOr) (a : MultiAcc)
+    (h : MI d0 a) : MI d0 (multiStep c d isSil i fo a) := by
+  unfold multiStep
+  split
+  · exact h
+  · dsimp only
+    have hr := RunOk.frame h.1 (subSt_rel c i a.st)
+      (frameNative_st (subSt c i a.st) (subIn c d isSil i a.st a.totSize) fo)
+    generalize frameNative (subSt c i a.st) (subIn c d isSil i a.st a.totSize) fo = r at *
+    split
+    · exact ⟨hr, by intro q hq; cases hq; exact hr⟩
+    · split
+      · exact ⟨hr, by intro q hq; cases hq; exact hr⟩
+      · split
+        · exact ⟨hr, by intro q hq; cases hq; exact hr⟩
+        · exact ⟨hr, by intro q hq; cases hq⟩
+
+theorem multiLoop_mi (d0 : St) (c : MultiCtx) (d : Decided) (isSil : Int) :
+    ∀ (n i : Nat) (fos : List FrameOr) (a : MultiAcc), MI d0 a → MI d0 (multiLoop c d isSil n i fos a) := by
+  intro n
+  induction n with
+  | zero => intro i fos a h; exact h
+  | succ n ih =>
+    intro i fos a h
+    unfold multiLoop
+    exact ih (i + 1) fos.tail _ (multiStep_mi d0 c d isSil i (fos.headD default) a h)
+
+theorem multiFrame_run (d : Decided) (isSil fsz out cbr : Int) (fos : List FrameOr) :
+    RunOk d.st (multiFrame d isSil fsz out cbr fos).st := by
+  unfold multiFrame
+  dsimp only
+  have h0 : MI d.st { st := multiSt0 d.st, totSize := 0, dtxCount := 0, cfg0 := none, lens := [], calls := [], ok := true, fail := none } :=
+    ⟨multiSt0_run d.st, by intro r hr; cases hr⟩
+  have hl := multiLoop_mi d.st (multiCtx d.st fsz out cbr) d isSil (multiCtx d.st fsz out cbr).nbFrames.toNat 0 fos _ h0
+  generalize multiLoop (multiCtx d.st fsz out cbr) d isSil (multiCtx d.st fsz out cbr).nbFrames.toNat 0 fos _ = a at *
+  obtain ⟨h1, h2⟩ := hl
+  have hrest : RunOk d.st { a.st with toMono := d.st.toMono } :=
+    ⟨h1.conf, h1.mode, h1.bw, h1.sc, Or.inr rfl, h1.prev, h1.prevCh⟩
+  split
+  · rename_i r hf; exact h2 r hf
+  · split
+    · exact hrest
+    · exact hrest
+    · exact h1
+
+
+theorem runOk_stOk (s d a : St) (hs : StOk s) (hc : Conf s d) (hm : ModeOk d.mode) (hb : BwOk d.bandwidth)
+    (hsc : 1 ≤ d.streamChannels ∧ d.streamChannels ≤ s.channels) (htm : d.toMono = 0 ∨ d.toMono = 1)
+    (hpm : d.prevMode = s.prevMode) (hpc : d.prevChannels = s.prevChannels) (hf : d.first = s.first)
+    (hld : s.application = APP_RESTRICTED_LOWDELAY → d.mode = MODE_CELT_ONLY) (hr : RunOk d a) : StOk a := by
+  have hca := hc.trans hr.conf
+  unfold Conf at hca
+  obtain ⟨c1, c2, c3, _, c5, c6, _, c8, c9, c10, _, _, _, _, c15, c16, _, _⟩ := hca
+  unfold ModeOk at hm
+  unfold BwOk at hb
+  have hpmS := hs.prevMode
+  have hpcS := hs.prevCh
+  simp only [MODE_SILK_ONLY, MODE_HYBRID, MODE_CELT_ONLY] at hm hpmS
+  refine ⟨by rw [c1]; exact hs.fs, by rw [c2]; exact hs.ch, by rw [c5, c2]; exact hs.bitrate, by rw [c10]; exact hs.forced,
+    by rw [c8]; exact hs.userBw, by rw [c9]; exact hs.maxBw, by rw [c6, c2]; exact hs.force,
+    by rw [hr.sc, c2]; exact hsc, by rw [hr.bw]; exact hb, ?_, by rw [c15]; exact hs.cx, by rw [c16]; exact hs.loss,
+    by rw [hr.mode]; simp only [MODE_SILK_ONLY, MODE_CELT_ONLY]; omega, ?_, ?_, ?_, ?_⟩
+  · simp only [MODE_SILK_ONLY, MODE_CELT_ONLY]
+    rcases hr.prev with ⟨p1, _⟩ | ⟨_, p2 | p2⟩
+    · rw [p1, hpm]; exact hpmS
+    · rw [p2]; omega
+    · rw [p2]; simp [MODE_CELT_ONLY]
+  · rw [c2]
+    rcases hr.prevCh with p | p
+    · rw [p, hpc]; exact hpcS
+    · rw [p]; omega
+  · rcases hr.toMono with t | t
+    · exact Or.inl t
+    · rw [t]; exact htm
+  · intro hfirst
+    rcases hr.prev with ⟨p1, p2⟩ | ⟨p1, _⟩
+    · rw [p1, hpm]; exact hs.firstPrev (by rw [← hf, ← p2]; exact hfirst)
+    · exact absurd p1 hfirst
+  · intro hld'
+    rw [c3] at hld'
+    rcases hr.prev with ⟨p1, _⟩ | ⟨_, p2 | p2⟩
+    · rw [p1, hpm]; exact hs.lowdelay hld'
+    · exact Or.inr (by rw [p2]; exact hld hld')
+    · exact Or.inr p2
+
+theorem BudSame.stOk {a b : St} (h : BudSame a b) (hs : StOk a) : StOk b := by
+  obtain ⟨a1, a2, a3, a4, a5, a6, a7, a8, a9, a10, a11, a12, a13, a14, a15, a16, a17⟩ := hs
+  unfold BudSame at h
+  refine ⟨?_, ?_, ?_, ?_, ?_, ?_, ?_, ?_, ?_, ?_, ?_, ?_, ?_, ?_, ?_, ?_, ?_⟩ <;> (rw [h]) <;> assumption
+
+/-- **`stOk` is an invariant of `opus_encode_native`**, and the settings are never written: for every
+    state within `stOk`, ALL arguments and ALL oracle values (no contract needed), whatever the
+    outcome of the call. -/
+theorem encodeNative_stOk (s : St) (fuzz : Bool) (fsz out : Int) (o : NatOr) (h : StOk s) :
+    StOk (encodeNative s fuzz fsz out o).st ∧ Conf s (encodeNative s fuzz fsz out o).st ∧
+    ((encodeNative s fuzz fsz out o).st.first = s.first ∨ (encodeNative s fuzz fsz out o).st.first = 0) := by
+  unfold encodeNative
+  split
+  · exact ⟨h, Conf.refl s, Or.inl rfl⟩
+  · dsimp only
+    have hbs := budgetSt_same s o fsz out
+    have h1 := hbs.stOk h
+    have hc1 := hbs.conf
+    have hf1 : (budgetSt s o fsz out).first = s.first := by unfold BudSame at hbs; rw [hbs]
+    generalize budgetSt s o fsz out = s1 at *
+    split
+    · have hst : ∀ b, (lowBudget s1 fsz out b).st = s1 := by
+        intro b; unfold lowBudget; dsimp only; split
+        · split <;> rfl
+        · rfl
+      dsimp only
+      rw [hst]; exact ⟨h1, hc1, Or.inl hf1⟩
+    · generalize (sizeBudget (analysisUpd s o) fsz out).maxDataBytes = m
+      generalize (sizeBudget (analysisUpd s o) fsz out).cbr = cbr
+      obtain ⟨hsame, hmode, hbw, _, _, _⟩ := decide'_spec s1 fuzz o fsz m ⟨h1.forced, h1.userBw, h1.maxBw, h1.prevMode⟩ h1.bw
+      obtain ⟨r1, r2, r3, r4, r5, r6⟩ := decide'_run s1 fuzz o fsz m h1
+      have hcd := hsame.conf
+      generalize decide' s1 fuzz o fsz m = d at *
+      have key : ∀ a, RunOk d.st a → StOk a ∧ Conf s a ∧ (a.first = s.first ∨ a.first = 0) := by
+        intro a ha
+        refine ⟨runOk_stOk s1 d.st a h1 hcd hmode hbw r1 r2 r3 r4 r5 r6 ha, (hc1.trans hcd).trans ha.conf, ?_⟩
+        rcases ha.prev with ⟨_, p2⟩ | ⟨p1, _⟩
+        · exact Or.inl (by rw [p2, r5, hf1])
+        · exact Or.inr p1
+      split
+      · dsimp only
+        exact key _ (multiFrame_run d _ fsz out cbr o.frames)
+      · unfold singleRes
+        dsimp only
+        exact key _ (RunOk.frame (RunOk.refl d.st) (self_rel d.st) (frameNative_st d.st _ _))
+
+
 end Opus.EncSkel.Proofs
